@@ -99,7 +99,10 @@ def gen_t2(sim, big=False, want_old=None):
             n_null = 0
         hdr_len = n_null + 5 * (n_lock + n_mem)
     ndef_offset = 16 + hdr_len
-    first_free = ndef_offset + 4
+    # 'tight': the tag can only hold 1-byte-length messages, so the two bytes after the L byte
+    # are ordinary value bytes and may be reserved as well
+    tight = data_area <= 240 and sim.chance("t2.tight", 0.25)
+    first_free = ndef_offset + (2 if tight else 4)
     footer = sim.pick("t2.footer", [0, 4, 8, 16, 20])
     total = end + footer
 
@@ -108,6 +111,9 @@ def gen_t2(sim, big=False, want_old=None):
                                             (1, "tail")])
         if where == "inside":
             a = sim.randint(kind + ".addr", first_free, max(first_free, end - 1))
+            if tight and sim.chance(kind + ".atvalue0", 0.5):
+                a = first_free
+                sim.probe("t2.reserved.first_value_byte")
         elif where == "tail":
             a = sim.randint(kind + ".addr", max(first_free, end - 12), end - 1)
         elif where == "after":
@@ -146,7 +152,7 @@ def gen_t2(sim, big=False, want_old=None):
     if hi >= total:
         total = (hi + 4) // 4 * 4
         lay.total = total
-    assert lay.header_ok(), "generator produced reserved bytes on TLV headers"
+    assert lay.header_ok(2 if tight else 4), "generator produced reserved bytes on TLV headers"
     cap = lay.true_capacity()
     if want_old is None:
         old_len, oc = pick_len(sim, "t2.oldlen", cap)
@@ -211,7 +217,7 @@ class T1Case(TagCase):
                 "terminator": lay.terminator}
 
 
-def gen_t1(sim, big=False, want_old=None):
+def gen_t1(sim, big=False, want_old=None, product_layout=False):
     kind = sim.wpick("t1.kind", [(3, "static-topaz"), (1, "static-generic"), (3, "dyn-512"),
                                  (2, "dyn-256"), (1, "dyn-1024")] + ([(1, "dyn-2048")] if big else []))
     if kind.startswith("static"):
@@ -224,9 +230,13 @@ def gen_t1(sim, big=False, want_old=None):
     n_lock = sim.weighted("t1.nlock", [4, 3, 1]) if dynamic else sim.weighted("t1.nlock", [6, 1])
     n_mem = sim.weighted("t1.nmem", [5, 2, 1]) if dynamic else sim.weighted("t1.nmem", [6, 1])
     std = dynamic and sim.chance("t1.stdctrl", 0.5)
+    if product_layout:     # what the products really look like: no extra control TLVs
+        n_null = n_lock = n_mem = 0
+        std = dynamic
     hdr_len = n_null + 5 * (n_lock + n_mem) + (10 if std else 0)
     ndef_offset = 12 + hdr_len
-    first_free = ndef_offset + 4
+    tight = size <= 256 and sim.chance("t1.tight", 0.25)
+    first_free = ndef_offset + (2 if tight else 4)
     end = size
     base_res = set(range(104, 128 if dynamic else 120))
 
@@ -235,6 +245,9 @@ def gen_t1(sim, big=False, want_old=None):
                                             (2, "tail")])
         if where == "inside":
             a = sim.randint(kind + ".addr", first_free, end - 1)
+            if tight and sim.chance(kind + ".atvalue0", 0.5):
+                a = first_free
+                sim.probe("t1.reserved.first_value_byte")
         elif where == "tail":
             a = sim.randint(kind + ".addr", max(first_free, end - 12), end - 1)
         elif where == "after":
@@ -267,7 +280,7 @@ def gen_t1(sim, big=False, want_old=None):
             sim.probe("t1.reserved." + where)
     terminator = not sim.chance("t1.noterm", 0.15)
     lay = t1t.T1TLayout(size, prefix, terminator=terminator)
-    assert lay.header_ok(), "generator produced reserved bytes on TLV headers"
+    assert lay.header_ok(2 if tight else 4), "generator produced reserved bytes on TLV headers"
     cap = lay.true_capacity()
     if want_old is None:
         old_len, oc = pick_len(sim, "t1.oldlen", cap)
